@@ -118,7 +118,7 @@ package client
 //@ requires qsWF(c) && m != nil
 //@ requires[wire-valid] forall i in 0..len(m.Operation) :: m.Operation[i] != nil && oneofOK(m.Operation[i].Entry) && (m.Operation[i].GetMpls() != nil ==> oneofOK(m.Operation[i].GetMpls().Label))
 //@ ensures[all-pending] result0 == nil ==> (forall i in 0..len(m.Operation) :: m.Operation[i].Id in dom(c.qs.pendq.Ops))
-//@   && (m.ElectionId != nil ==> c.qs.pendq.Election != nil) && (m.Params != nil ==> c.qs.pendq.SessionParams != nil)
+//@   && (m.ElectionId != nil ==> c.qs.pendq.Election != nil && c.qs.pendq.Election.ID == m.ElectionId) && (m.Params != nil ==> c.qs.pendq.SessionParams != nil)
 //@ ensures[nothing-lost] forall k in old(dom(c.qs.pendq.Ops)) :: k in dom(c.qs.pendq.Ops) && c.qs.pendq.Ops[k] == old(c.qs.pendq.Ops[k])
 //@ ensures[wf] qsWF(c)
 //@ loop 1 at "range m.Operation" invariant qsWF(c) && (forall i in 0..loopi :: m.Operation[i].Id in dom(c.qs.pendq.Ops))
@@ -216,6 +216,7 @@ package client
 //@ requires[wire-valid] forall i in 0..len(m.Operation) :: m.Operation[i] != nil && oneofOK(m.Operation[i].Entry) && (m.Operation[i].GetMpls() != nil ==> oneofOK(m.Operation[i].GetMpls().Label))
 //@ ensures[registered-or-error] len(c.sendErr) == old(len(c.sendErr)) ==> (forall i in 0..len(m.Operation) :: m.Operation[i].Id in dom(c.qs.pendq.Ops))
 //@ ensures[nothing-lost] forall k in old(dom(c.qs.pendq.Ops)) :: k in dom(c.qs.pendq.Ops) && c.qs.pendq.Ops[k] == old(c.qs.pendq.Ops[k])
+//@ ensures[election-registered] m.ElectionId != nil && len(c.sendErr) == old(len(c.sendErr)) ==> c.qs.pendq.Election != nil && c.qs.pendq.Election.ID == m.ElectionId
 //@ ensures[queued-or-sent] (len(c.qs.sendq) == old(len(c.qs.sendq)) + 1 && c.qs.sendq[old(len(c.qs.sendq))] == m && len(sent(c.qs.modifyCh)) == old(len(sent(c.qs.modifyCh))))
 //@   || (len(c.qs.sendq) == old(len(c.qs.sendq)) && len(sent(c.qs.modifyCh)) <= old(len(sent(c.qs.modifyCh))) + 1)
 //@ ensures[queue-kept] forall i in 0..old(len(c.qs.sendq)) :: c.qs.sendq[i] == old(c.qs.sendq[i])
